@@ -223,7 +223,8 @@ def _run_structural(ctx):
     r3.check(_st.get("zero") == S("RUNNING"), f"{_st_m.module.relpath}::{_st_m.qual}::opaque-id", "the state of task 0 is looked up under id 0",
              f"TrackingBackend.status for a target tracked as task id 0 (RUNNING at the pool) gives {_st.get('zero')}: the first task of every pool is never reported under its own id", _st_m.where)
     report_witness(r3, "src/gwf/backends/local.py::Client.submit::id-0", "src/gwf/backends/local.py:1", cached_witness(ctx, "local-client", local_client_witness),
-                   "the id the pool answers with (0 included) is the id submit returns", select=lambda d: "tid=" in d)
+                   "the id the pool answers with (0 included) is the id submit returns; a state query is one get_task_states request whose reply is decoded id by id",
+                   select=lambda d: "tid=" in d or "task_states" in d or "state query" in d)
     tid_var = None
     for n in walk_no_nested(enq.node):
         if isinstance(n, ast.Assign) and isinstance(n.value, ast.Call) and idx.canon(n.value.func, enq.module) == "builtins.next" \
